@@ -353,8 +353,23 @@ fn exec(case: &[String], out: &mut Out) {
 	}
 }
 
+/// how often each family of oracle was actually evaluated (printed to stderr when KV_ORACLE_STATS is set)
+static N_SCENE: std::sync::atomic::AtomicUsize = std::sync::atomic::AtomicUsize::new(0);
+static N_IN_DOMAIN: std::sync::atomic::AtomicUsize = std::sync::atomic::AtomicUsize::new(0);
+static N_METAMORPHIC: std::sync::atomic::AtomicUsize = std::sync::atomic::AtomicUsize::new(0);
+
 pub fn run(ops: &[String]) -> Vec<String> {
-	run_cases(ops, None, exec)
+	let r = run_cases(ops, None, exec);
+	if std::env::var("KV_ORACLE_STATS").is_ok() {
+		use std::sync::atomic::Ordering::SeqCst;
+		eprintln!(
+			"spatial oracles: scenes={} in_domain={} metamorphic={}",
+			N_SCENE.load(SeqCst),
+			N_IN_DOMAIN.load(SeqCst),
+			N_METAMORPHIC.load(SeqCst)
+		);
+	}
+	r
 }
 
 // ---------------------------------------------------------------------------------------------
@@ -521,6 +536,7 @@ fn in_domain(sc: &SceneP) -> bool {
 fn scene_oracles(sc: &SceneP, o: [f32; 2], line: &str, out: &mut Out) {
 	let q = d4(sc.lq);
 	let n2 = q[0] * q[0] + q[1] * q[1] + q[2] * q[2] + q[3] * q[3];
+	N_SCENE.fetch_add(1, std::sync::atomic::Ordering::SeqCst);
 	// out-of-domain stream: record what the real code does at the excluded points
 	if !in_domain(sc) {
 		if !(o[0].is_finite() && o[1].is_finite()) {
@@ -539,6 +555,7 @@ fn scene_oracles(sc: &SceneP, o: [f32; 2], line: &str, out: &mut Out) {
 		out.oracle_fail("finite_output", line);
 		return;
 	}
+	N_IN_DOMAIN.fetch_add(1, std::sync::atomic::Ordering::SeqCst);
 	let s = sc.strength.clamp(0.0, 1.0) as f64;
 	let lp = d3(sc.lp);
 	let ep = d3(sc.ep);
@@ -554,10 +571,23 @@ fn scene_oracles(sc: &SceneP, o: [f32; 2], line: &str, out: &mut Out) {
 	let scale = d.max(len3(lp)).max(len3(ep)).max(1.0);
 	// well-conditioned for the metamorphic relations: not within rounding reach of an ear, of the
 	// min/max kinks, and a distance range that is not razor thin
+	// (positions carry an absolute rounding error of a few ulp(scale) ~ 2.4e-7*scale; the amplitude's relative
+	//  sensitivity to the relative distance is <= 6.9 * easing slope, bounded by the power for powers >= 1)
+	let gentle = match sc.att {
+		None | Some(Easing::Linear) => true,
+		Some(Easing::InPowi(_)) | Some(Easing::OutPowi(_)) | Some(Easing::InOutPowi(_)) => true,
+		Some(Easing::InPowf(p)) | Some(Easing::OutPowf(p)) | Some(Easing::InOutPowf(p)) => p >= 1.0,
+	};
 	let well = ear_l > 1.0e-3 * scale
 		&& ear_r > 1.0e-3 * scale
-		&& (sc.att.is_none() || ((mx - mn) > 1.0e-2 * mx && (d - mx).abs() > 1.0e-3 * mx && (d - mn).abs() > 1.0e-3 * mx));
+		&& (sc.att.is_none()
+			|| (gentle
+				&& (mx - mn) > 5.0e-2 * mx.max(scale)
+				&& (d - mx).abs() > 1.0e-3 * mx.max(scale)
+				&& (d - mn).abs() > 1.0e-3 * mx.max(scale)));
 	let tol = |x: f64| 2.0e-3 * x.abs().max(1.0e-3);
+	// scale of the signal (strength 0 keeps the stereo input, so the mono mix is the wrong yardstick)
+	let amp = (sc.l.abs().max(sc.r.abs())) as f64;
 
 	// (a) listener missing (dropped, or never seen by the track) => exact silence
 	for (mode, name) in [(ListenerMode::Dropped, "no_listener_dropped"), (ListenerMode::NeverSeen, "no_listener_never")] {
@@ -603,7 +633,7 @@ fn scene_oracles(sc: &SceneP, o: [f32; 2], line: &str, out: &mut Out) {
 		//     the property; inside the head it is known to fail (recorded finding, separate oracle name).
 		let wrong_side = (local[0] > 1.0e-3 * scale && gr < gl - 1.0e-4) || (local[0] < -1.0e-3 * scale && gl < gr - 1.0e-4);
 		if wrong_side {
-			if d >= 1.05 * EAR {
+			if d >= 1.001 * EAR {
 				out.oracle_fail("favours_near_ear", line);
 			} else if d < EAR {
 				out.oracle_fail("favours_near_ear_inside_head", line);
@@ -613,6 +643,7 @@ fn scene_oracles(sc: &SceneP, o: [f32; 2], line: &str, out: &mut Out) {
 	if !well {
 		return;
 	}
+	N_METAMORPHIC.fetch_add(1, std::sync::atomic::Ordering::SeqCst);
 	let mut rng = line_rng(line);
 	// (f) attenuation depends only on the distance: same distance, another direction, strength 0
 	if sc.att.is_some() {
@@ -636,7 +667,7 @@ fn scene_oracles(sc: &SceneP, o: [f32; 2], line: &str, out: &mut Out) {
 		let mut m = sc.clone();
 		m.ep = f3(sub3(ep, scale3(n, 2.0 * dot3(rel, n))));
 		let om = render_scene(&m);
-		if (om[0] as f64 - o[1] as f64).abs() > tol(mono) || (om[1] as f64 - o[0] as f64).abs() > tol(mono) {
+		if (om[0] as f64 - o[1] as f64).abs() > tol(amp) || (om[1] as f64 - o[0] as f64).abs() > tol(amp) {
 			out.oracle_fail("mirror_swaps", format!("{} # mirrored: {}", line, fmt_scene(&m)));
 		}
 	}
@@ -649,7 +680,7 @@ fn scene_oracles(sc: &SceneP, o: [f32; 2], line: &str, out: &mut Out) {
 		m.ep = f3(add3(qrot(r, ep), t));
 		m.lq = f4(qmul(r, qn));
 		let om = render_scene(&m);
-		if (om[0] as f64 - o[0] as f64).abs() > tol(mono) || (om[1] as f64 - o[1] as f64).abs() > tol(mono) {
+		if (om[0] as f64 - o[0] as f64).abs() > tol(amp) || (om[1] as f64 - o[1] as f64).abs() > tol(amp) {
 			out.oracle_fail("rigid_motion_invariant", format!("{} # moved: {}", line, fmt_scene(&m)));
 		}
 	}
